@@ -108,7 +108,7 @@ def build_overlay(prop, unit, native):
         tst = os.path.join(wd, "zz_vreplay_test.go")
         open(tst, "w").write(open(os.path.join(VERIF, "harness/vrt/vreplay_test.go.txt")).read().replace("package PKG", "package " + pk))
         ov[os.path.join(main_dir, "zz_vreplay_test.go")] = tst
-    return ov, harnesses
+    return {os.path.normpath(k): v for k, v in ov.items()}, harnesses
 
 
 def hook_byteslice(src, out):
@@ -183,6 +183,8 @@ def _run_one(hname):
         if unit.get("contracts"):
             from .stubs import install_contracts
             install_contracts(ex, unit["contracts"])
+        for fname, val in unit.get("stub_values", {}).items():
+            ex.stubs[fname] = (lambda v: (lambda ex_, st_, args_, ins_: v))(val)
         if "stubs_module" in unit:
             import importlib
             importlib.import_module(unit["stubs_module"]).install(ex)
